@@ -1,5 +1,5 @@
 """C16 Asynchronous requests (set_data / get_data)."""
-from vk import common, sysrun
+from vk import common, sysrun, remote
 from vk.kernels import c16 as K
 
 
@@ -9,6 +9,7 @@ def run(rep, tier, seed, args):
                 'async_requests=True: the solver decides per agent step whether get_data / set_data requests are made, all step sizes, and when each '
                 'request (a parked latency point before it) and each reply is delivered; non-trivial = at least one set_data call or refused request on the path')
     rep.bounds = {'agents': '<= 2 (+ one agent without an async connection in the refusal runs)', 'steps': 'K <= 3 (thorough 4)', 'requests per agent step': '<= 1 get + 1 set (one run with 2)',
-                  'outside': 'remote agents (requests over a socket), get_data values (only presence of the requested attribute is checked)'}
-    rep.assumptions = list(sysrun.STUBS) + ['a request of an in-process generator simulator is preceded by a parked latency point, i.e. it reaches mosaik at any later event-loop iteration (as a request from a remote agent would)']
+                  'remote': 'agent (and A) behind the in-memory remote transport (vk.remote): requests pass through RemoteProxy._handle_remote_requests and mosaik_api_v3.RemoteMosaikProxy; a refusal is observed as a failure reply of type ScenarioError',
+                  'outside': 'sockets and JSON text, get_data values (only presence of the requested attribute is checked)'}
+    rep.assumptions = list(sysrun.STUBS) + list(remote.STUBS) + ['a request of an in-process generator simulator is preceded by a parked latency point, i.e. it reaches mosaik at any later event-loop iteration (as a request from a remote agent would)']
     rep.add_jobs(common.run_jobs(jobs))
